@@ -23,7 +23,7 @@ import HcModel.Drv.Util
      <back>: the accessory's ephemeral keys are named RELATIVE to the one current on the connection when the message is
      processed (0 = the key of the latest start response, k = k start responses earlier); ignored for other connections.
      The observation "session <e> <back>" names the installed secret the same way.
-     entry := none | nokey | key <pk> | own <pk>   (own: the entity also holds a private key — the accessory's)
+     entry := none | nokey | badkey | key <pk> | own <pk>   (own: the entity also holds a private key — the accessory's)
 -/
 namespace Hc.Drv.Pair
 open Hc.Drv
@@ -191,6 +191,7 @@ def pEntry : P Entry
   | "nokey" :: r => some (.noKey, r)
   | "key" :: r => do let (n, r) ← pNat r; pure (.key n, r)
   | "own" :: r => do let (n, r) ← pNat r; pure (.own n, r)
+  | "badkey" :: r => pure (.badKey, r)
   | _ => none
 
 def nameOf : EncData → Option Nat
